@@ -41,7 +41,8 @@ pub const C19: Check = Check {
            which a chosen subset fails per-connection setup (fault hook keyed by client source address 127.0.0.2, or a \
            keepalive value the kernel rejects), listener B (never failing) is the liveness control on the same runtime. \
            Oracle: after any failed setup, an un-faulted connection to A must get its Reset Query answered; with the \
-           kernel-rejected keepalive every connection must be accepted and closed (EOF) rather than left in the backlog. \
+           kernel-rejected keepalive every connection must be accepted and closed (EOF) rather than left in the backlog; \
+           burst leg: all connections of a burst are established back to back before any protocol step, so setups fail while others wait in the backlog - every un-faulted one must be answered, none closed. \
            A missing answer is a violation only if it persists over three attempts with growing windows (1,2,4 s) while B \
            answered in each window; otherwise inconclusive. distinct = (leg, failure pattern, position of first failure)",
     assumptions: &["kernel rejects TCP_KEEPIDLE above 32767 s (probed at run time; the leg is skipped as inconclusive-note if not)"],
@@ -133,6 +134,78 @@ fn run_c19(ctx: &mut Ctx, rep: &mut Report) {
         hooks.clear_detail_faults();
         rep.sample(json!({"leg": "fault-hook", "pattern_fail_flags": pattern}));
         drop(srv);
+
+        // Leg 3: bursts. All TCP connections of a burst are established back to back (they queue in the accept
+        // backlog) before any protocol step, so a failing setup is processed while other connections are waiting.
+        {
+            let mut srv = match start_two_listener_server(ctx, None, false, 1) {
+                Ok(s) => s, Err(e) => { rep.inconclusive(format!("server start: {e}")); return }
+            };
+            if srv.install(&hooks, &Model::rand(&mut rng)).is_err() { rep.inconclusive("update failed"); return }
+            let a = srv.rtr_addr;
+            let b = srv.config.rtr_listen[0];
+            hooks.clear_detail_faults();
+            hooks.add_detail_fault("rtr.setup", "127.0.0.2:", 1);
+            let bursts = ctx.tier.pick(8usize, 40);
+            'bursts: for burst in 0..bursts {
+                let n = 2 + rng.usize(4);
+                let mut pattern: Vec<bool> = (0..n).map(|_| rng.chance(1, 2)).collect();
+                pattern[0] = true; *pattern.last_mut().unwrap() = false;
+                ctx.begin_case(&json!({"leg": "burst", "pattern": pattern, "burst": burst}));
+                let pat = pattern.clone();
+                let results: Vec<(bool, Result<Option<()>, String>)> = rt.block_on(async move {
+                    let mut streams = Vec::new();
+                    for fail in pat.iter() {
+                        let local = if *fail { bad } else { good };
+                        let sock = match tokio::net::TcpSocket::new_v4() { Ok(s) => s, Err(e) => { streams.push((*fail, Err(e.to_string()))); continue } };
+                        if let Err(e) = sock.bind(SocketAddr::new(local, 0)) { streams.push((*fail, Err(e.to_string()))); continue }
+                        streams.push((*fail, sock.connect(a).await.map_err(|e| e.to_string())));
+                    }
+                    let mut out = Vec::new();
+                    for (fail, st) in streams {
+                        match st {
+                            Err(e) => out.push((fail, Err(e))),
+                            Ok(stream) => {
+                                let mut client = Client::with_initial_version(2, stream, RtrTarget::default(), None);
+                                let r = tokio::time::timeout(Duration::from_secs(2), client.step()).await;
+                                out.push((fail, match r { Ok(Ok(())) => Ok(Some(())), Ok(Err(_)) => Ok(None), Err(_) => Err("timeout".to_string()) }));
+                            }
+                        }
+                    }
+                    out
+                });
+                for (i, (fail, r)) in results.iter().enumerate() {
+                    rep.eval();
+                    let replay = json!({"leg": "burst", "pattern_fail_flags": pattern, "index": i, "burst": burst});
+                    match (*fail, r) {
+                        (true, Ok(None)) => rep.count("setup_failures_observed_as_close", 1),
+                        (true, Ok(Some(_))) => rep.inconclusive("faulted connection was served; fault hook not reached"),
+                        (true, Err(_)) => {}
+                        (false, Ok(Some(_))) => rep.class(format!("burst|answered|len{}|pos{}", pattern.len(), i)),
+                        (false, Ok(None)) => rep.violation("C19/good-connection-closed", format!(
+                            "burst {:?} (true = failing setup): the un-faulted connection at position {i}, queued while an earlier setup failed, was closed without an answer", pattern), replay),
+                        (false, Err(e)) if e == "timeout" => {
+                            let mut persisted = true; let mut control_ok = true;
+                            for w in [1u64, 2, 4] {
+                                let c = rt.block_on(connect_and_reset(good, b, Duration::from_secs(w)));
+                                if !matches!(c, Ok(Some(_))) { control_ok = false; break }
+                                let again = rt.block_on(connect_and_reset(good, a, Duration::from_secs(w)));
+                                if matches!(again, Ok(Some(_))) { persisted = false; break }
+                            }
+                            if !control_ok { rep.inconclusive("control listener did not answer; machine too loaded to judge"); }
+                            else if persisted {
+                                rep.violation("C19/listener-stalls-after-setup-failure", format!(
+                                    "burst {:?}: after failed setups with other connections queued, listener {a} served nothing in 1+2+4 s windows while control listener {b} answered", pattern), replay);
+                                break 'bursts
+                            } else { rep.note("burst: slow answer, served on retry"); }
+                        }
+                        (false, Err(e)) => rep.inconclusive(format!("client error: {e}")),
+                    }
+                }
+            }
+            hooks.clear_detail_faults();
+            drop(srv);
+        }
 
         // Leg 2: keepalive the kernel rejects (no hooks involved) and an accepted value as control.
         for (ka, expect_fail) in [(40_000u64, true), (600u64, false)] {
